@@ -58,6 +58,7 @@ type c09job struct {
 	Single bool              `json:"single,omitempty"`  // one interpreted goroutine: it cannot finish while it is parked
 	Hist   []c10ev           `json:"hist,omitempty"`
 	Warm   bool              `json:"warm,omitempty"` // C10: every definition is executed once before the history
+	Virgin bool              `json:"virgin,omitempty"` // C10: the definitions are loaded by a plain Eval, before the interpreter's first *WithContext call
 	Threads int              `json:"threads,omitempty"` // histories: bound of interpreted goroutines of each cancelled run
 }
 
